@@ -109,15 +109,17 @@ Definition omap_add (o : option nat) (k : nat) : option nat :=
 
 (** parsed_packet.rs:311, repaired (the size test cannot underflow; the record count is checked
     and bumped before any byte moves). [rr] is the wire form of the record. *)
-Definition m_insert_rr (sec : section) (rr : bytes) : cm unit :=
+Definition insert_prologue : cm unit :=
   v0 <-- getv ;;
-  (if pp_maybe_compressed v0 then
-     u <-- clift (uncompress (pp_packet v0)) ;;
-     putv (pp_with_packet v0 u) ;;-
-     m_recompute ;;-
-     v1 <-- getv ;;
-     if pp_maybe_compressed v1 then clift (Panic 631) else cret tt
-   else cret tt) ;;-
+  if pp_maybe_compressed v0 then
+    u <-- clift (uncompress (pp_packet v0)) ;;
+    putv (pp_with_packet v0 u) ;;-
+    m_recompute ;;-
+    v1 <-- getv ;;
+    if pp_maybe_compressed v1 then clift (Panic 631) else cret tt
+  else cret tt.
+
+Definition insert_core (sec : section) (rr : bytes) : cm unit :=
   v <-- getv ;;
   let p := pp_packet v in
   let rr_len := length rr in
@@ -148,6 +150,9 @@ Definition m_insert_rr (sec : section) (rr : bytes) : cm unit :=
         putv (pp_update v p2 oq oan ons (opt_or oar (Some ins)) oed (pp_maybe_compressed v) (pp_cached v))
       | SEdns => clift (Panic 633)
       end.
+
+Definition m_insert_rr (sec : section) (rr : bytes) : cm unit :=
+  insert_prologue ;;- insert_core sec rr.
 
 (** ** Cursor operations *)
 
